@@ -11,8 +11,8 @@ import (
 	"verif/explore"
 	"verif/hapi"
 	"verif/vrt"
-	"verif/wire"
 	"verif/vrt/vos"
+	"verif/wire"
 )
 
 // SeqOp is one step of a sequential history: a request by a client, or a clock advance.
